@@ -32,7 +32,7 @@ let res_tok (r : (n, n) res) : string =
   | RDiverge -> "DIVERGE"
 
 let sort_log l = List.sort (fun (a, x) (b, y) ->
-  let c = Z.compare (z_of_n a) (z_of_n b) in if c <> 0 then c else Z.compare (z_of_n x) (z_of_n y)) l
+  let c = ZA.compare (z_of_n a) (z_of_n b) in if c <> 0 then c else ZA.compare (z_of_n x) (z_of_n y)) l
 
 let parse_op (t : string list) : (n, n) op =
   match t with
@@ -59,14 +59,14 @@ let obs_of o r lg len wt ks =
   [res_tok r; "e" ^ join "," kvtok lg; "s" ^ tn len ^ ":" ^ tn wt ^ ":" ^ join "," tn ks]
 
 (* direct checks on the implementation's state token against the bounds in force *)
-let st_ok (tok : string) (mw : Z.t) (ms : Z.t) : bool =
+let st_ok (tok : string) (mw : ZA.t) (ms : ZA.t) : bool =
   if String.length tok < 1 || tok.[0] <> 's' then false else
   match String.split_on_char ':' (String.sub tok 1 (String.length tok - 1)) with
   | [l; w; ks] ->
-    let l = Z.of_string l and w = Z.of_string w in
+    let l = ZA.of_string l and w = ZA.of_string w in
     let keys = if ks = "-" then [] else String.split_on_char ',' ks in
     let distinct = List.length (List.sort_uniq compare keys) = List.length keys in
-    Z.leq l ms && Z.leq w mw && distinct && Z.equal (Z.of_int (List.length keys)) l
+    ZA.leq l ms && ZA.leq w mw && distinct && ZA.equal (ZA.of_int (List.length keys)) l
   | _ -> false
 
 let eval inp obs =
@@ -95,7 +95,7 @@ let eval inp obs =
          mobs := obs_of o r lg (len c') (weight c') (keys c') :: !mobs;
          let ((s', r2), lg2) = s_step keqb !s o in
          s := s';
-         sobs := obs_of o r2 lg2 (n_of_z (Z.of_int (List.length s'.s_items))) (total s'.s_items)
+         sobs := obs_of o r2 lg2 (n_of_z (ZA.of_int (List.length s'.s_items))) (total s'.s_items)
                    (List.map (fun ((k, _), _) -> k) s'.s_items) :: !sobs;
          (match o with OResize (a, b) -> cur_mw := z_of_n a; cur_ms := zz_of_z b | _ -> ());
          (match !impl_rest with
